@@ -168,13 +168,22 @@ Theorem C03_prefix_column_names_fixed :
 Proof. exact (conj w_gen_prefix_fixed (proj1 w_gen_prefix)). Qed.
 Print Assumptions C03_prefix_column_names_fixed.
 
-(** 3c. autoinc: a [bracket]-quoted AUTOINCREMENT column is not recognised, and the letters
-    AUTOINCREMENT later in the definition of a plain INTEGER PRIMARY KEY column are. *)
+(** 3c. autoinc: a [bracket]-quoted AUTOINCREMENT column is not recognised (still true); and, for the OLD
+    regexp ([autoinc_old]: PRIMARY\s+KEY\s+[^,]*AUTOINCREMENT), the letters AUTOINCREMENT later in the definition
+    of a plain INTEGER PRIMARY KEY column were -- known finding C03-keyword-in-name-autoinc, FIXED in the Go code
+    (fix "sqlite inspection recognises AUTOINCREMENT only where the grammar allows it"):
+    [C03_autoinc_keyword_in_name_fixed] is the new behaviour on the same statement, and on the longest form
+    the grammar allows (PRIMARY KEY DESC ON CONFLICT REPLACE AUTOINCREMENT). *)
 Theorem C03_autoinc_refuted :
   autoinc w_auto_bracket [B "id"; B "b"] [B "id"] = AutoNone /\
-  autoinc w_auto_phantom [B "id"; B "autoincrement_x"] [B "id"] = AutoOk (B "id").
+  autoinc_old w_auto_phantom [B "id"; B "autoincrement_x"] [B "id"] = AutoOk (B "id").
 Proof. exact w_autoinc. Qed.
 Print Assumptions C03_autoinc_refuted.
+Theorem C03_autoinc_keyword_in_name_fixed :
+  autoinc w_auto_phantom [B "id"; B "autoincrement_x"] [B "id"] = AutoNone /\
+  autoinc w_auto_full [B "id"; B "b"] [B "id"] = AutoOk (B "id").
+Proof. exact w_autoinc_fixed. Qed.
+Print Assumptions C03_autoinc_keyword_in_name_fixed.
 
 (** 3d. partial-index predicate, the OLD code (strings.Index(stmt, "WHERE"); known findings C03-where-in-name
     and C03-lowercase-where, both FIXED in the Go code): the planner's own CREATE INDEX `ix_WHERE_y` ... WHERE a > 0
